@@ -1034,16 +1034,20 @@ def run(tier, seed):
         state["ndis"] += sum(1 for bi in bad[nloc:] if JOBS[btasks[bi][0]]["claimed"])
         diag["model_disagreements"] += sum(1 for bi in bad[nloc:] if not JOBS[btasks[bi][0]]["claimed"])
 
+    # back-pressure: at most ~one coqc batch of finished sub-trees waits in memory while coqc is busy
+    budget = threading.Semaphore(20 * C.NCPU)
+    stop = threading.Event()
+
+    def feed():
+        for t in tasks:
+            budget.acquire()
+            if stop.is_set():
+                return
+            yield t
+
     pool = multiprocessing.get_context("fork").Pool(processes=C.NCPU)
     try:
         last = None
-        # back-pressure: at most ~one coqc batch of finished sub-trees waits in memory while coqc is busy
-        budget = threading.BoundedSemaphore(20 * C.NCPU)
-
-        def feed():
-            for t in tasks:
-                budget.acquire()
-                yield t
         for ti, r in enumerate(pool.imap(_pool_walk, feed(), chunksize=1)):
             budget.release()
             if task_group[ti] != last or batch["nodes"] >= 1600000:
@@ -1072,6 +1076,8 @@ def run(tier, seed):
                 diag["cases"] += r["leaves"]
         flush()
     finally:
+        stop.set()
+        budget.release()            # the pool's feeder thread may be waiting for budget: let it see `stop`
         pool.terminate()
         pool.join()
     tree_stats = list(tree_stats.values())
